@@ -210,11 +210,7 @@ func c07Oracle(b []byte, p *lfs.Pointer) string {
 			return "extension oid is not 64 lower-case hex digits"
 		}
 	}
-	win := b
-	if len(win) > 1024 {
-		win = win[:1024]
-	}
-	if p.Canonical != (specCanonical(p) == string(win)) {
+	if p.Canonical != (specCanonical(p) == string(b)) {
 		return "canonical flag differs from (input == canonical encoding of the decoded pointer)"
 	}
 	return ""
@@ -307,6 +303,23 @@ func c07(c *Ctx) {
 	}
 	inputs = append(inputs, []byte{})
 	kinds = append(kinds, "directed-blank")
+	// directed family: pointers whose canonical encoding is 1000..1030 bytes long (a long extension name),
+	// alone and followed by a tail — the size cutoff of the decoder sits at 1024 bytes
+	for L := 1000; L <= 1030; L++ {
+		oid := randOid(r)
+		mk := func(pad int) string {
+			return fmt.Sprintf("version https://git-lfs.github.com/spec/v1\next-0-%s sha256:%s\noid sha256:%s\nsize 12345\n", strings.Repeat("a", pad), oid, oid)
+		}
+		pad := L - len(mk(0))
+		if pad < 1 {
+			continue
+		}
+		enc := mk(pad)
+		for _, tail := range []string{"", "\n", "x", strings.Repeat("\n", 2000), "trailing data " + strings.Repeat("z", 900)} {
+			inputs = append(inputs, []byte(enc+tail))
+			kinds = append(kinds, "directed-cutoff")
+		}
+	}
 	var ptrs []*lfs.Pointer
 	for i := 0; i < n; i++ {
 		k := r.Intn(10)
